@@ -629,8 +629,17 @@ def rule_rebuild(ctx):
                 continue
             key = ctx.key(f, "C04-REBUILD")
             it = lp.iter
-            while isinstance(it, ast.Call) and dotted(it.func) in ("tuple", "list", "iter") and it.args:
-                it = it.args[0]
+            la = ctx.r.local_assignments(f)
+            for _ in range(4):
+                if isinstance(it, ast.Call) and dotted(it.func) in ("tuple", "list", "iter", "reversed") \
+                        and it.args:
+                    if dotted(it.func) == "reversed":
+                        break
+                    it = it.args[0]
+                elif isinstance(it, ast.Name) and len(la.get(it.id, [])) == 1:
+                    it = la[it.id][0]
+                else:
+                    break
             bottom_up = isinstance(it, ast.Call) and isinstance(it.func, ast.Attribute) and \
                 it.func.attr in ("traverse", "_traverse_dfs", "_traverse_ordered")
             if bottom_up:
